@@ -81,6 +81,26 @@ def gen_cases(ctx, nbase):
                 v = (int.from_bytes(m[24:28], "little") + delta) % 2 ** 32
                 m[24:28] = v.to_bytes(4, "little")
                 out.append(mk(bytes(m) + tail, {lvl, "len-perturbed"}, note="crit"))
+        # the stored common CRC replaced by special values (0x0000, 0xffff, complement, byte-swapped, +-1): the header's own CRC rule
+        if f.level >= 1 and f.common_crc:
+            fs = 4 if f.level == 3 else 2
+            exts2 = list(f.exts)
+            exts2.insert(min(f.common_pos, len(exts2)), (E.EXT_COMMON, b"\0\0" + f.common_extra))
+            start = {1: len(hb) - sum(len(d) + 1 + fs for _, d in exts2) - 2, 2: 24, 3: 28}[f.level]
+            off = start
+            for (t, d) in exts2:
+                if t == E.EXT_COMMON:
+                    cpos = off + fs + 1
+                    true = int.from_bytes(hb[cpos:cpos + 2], "little")
+                    for v in {0, 0xffff, true ^ 0xffff, ((true & 0xff) << 8) | (true >> 8), (true + 1) & 0xffff, (true - 1) & 0xffff,
+                              true & 0xff, true & 0xff00}:
+                        if v == true:
+                            continue
+                        m = bytearray(hb)
+                        m[cpos:cpos + 2] = v.to_bytes(2, "little")
+                        out.append(mk(bytes(m) + tail, {lvl, "common-crc-special"}, note="crit"))
+                    break
+                off += len(d) + 1 + fs
         # extended-header size perturbations (with the common CRC recomputed where there is none to protect it)
         if f.level >= 1 and f.exts:
             g = f.copy()
